@@ -414,16 +414,44 @@ def _matches(finding, info):
 
 
 # ---------------------------------------------------------------------------
+class UnitTimeout(BaseException):
+    pass
+
+
+UNIT_WATCHDOG_S = int(os.environ.get("VERIF_UNIT_WATCHDOG_S", "1500"))
+
+
 def _run_unit(args):
     fn_mod, fn_name, kw = args
     t0 = time.time()
+    import signal
+
+    def _alarm(signum, frame):
+        raise UnitTimeout()
+    try:
+        signal.signal(signal.SIGALRM, _alarm)
+        signal.alarm(UNIT_WATCHDOG_S)
+    except Exception:
+        pass
     try:
         mod = importlib.import_module(fn_mod)
         res = getattr(mod, fn_name)(**kw)
+    except UnitTimeout:
+        res = dict(unit="%s(%s)" % (fn_name, kw), obligations=0, discharged=0,
+                   undecided=["unit stopped by the %d s watchdog" %
+                              UNIT_WATCHDOG_S],
+                   stats=dict(paths=0, queries=dict(unsat=0, sat=0,
+                                                    unknown=0),
+                              solver_s=0.0,
+                              incomplete="watchdog %d s" % UNIT_WATCHDOG_S))
     except BaseException as e:     # noqa
         res = dict(unit="%s(%s)" % (fn_name, kw),
                    harness_errors=["unit crashed: %s\n%s" %
                                    (e, traceback.format_exc()[-1500:])])
+    try:
+        signal.alarm(0)
+    except Exception:
+        pass
     res.setdefault("unit", "%s(%s)" % (fn_name, kw))
     res["wall_s"] = round(time.time() - t0, 2)
     return res
